@@ -1994,3 +1994,59 @@ func ruleCoordinateCountsCapped(c *eng.Ctx) {
 		}
 	}
 }
+
+// R2.19 [C02]
+func ruleSizeCheckNoOverflow(c *eng.Ctx) {
+	const R = "R2.19-SIZE-CHECK-NO-OVERFLOW"
+	c.Rule(R, "a size check of the form rows*columns > limit does not overflow: where a product of two non-constant integers is compared with a constant, each factor is proven to be at most 2^31 there (so the 64-bit product is exact), or the comparison is written as a division. A product that wraps around compares small and lets a row number of 2^62 through to the allocation", 0, 1)
+	n := 0
+	for _, fn := range c.P.ModuleFuncs() {
+		if fn.Blocks == nil {
+			continue
+		}
+		k := 0
+		eng.Instrs(fn, true, func(in ssa.Instruction) {
+			cmp, ok := in.(*ssa.BinOp)
+			if !ok {
+				return
+			}
+			switch cmp.Op {
+			case token.LSS, token.LEQ, token.GTR, token.GEQ:
+			default:
+				return
+			}
+			for _, pair := range [][2]ssa.Value{{cmp.X, cmp.Y}, {cmp.Y, cmp.X}} {
+				lim, isC := eng.ConstInt(pair[1])
+				if !isC || lim < 1<<16 {
+					continue
+				}
+				v := pair[0]
+				for {
+					if cv, ok := v.(*ssa.Convert); ok {
+						v = cv.X
+						continue
+					}
+					break
+				}
+				mul, ok := v.(*ssa.BinOp)
+				if !ok || mul.Op != token.MUL {
+					continue
+				}
+				if bt, ok := mul.Type().Underlying().(*types.Basic); !ok || bt.Info()&types.IsInteger == 0 {
+					continue
+				}
+				_, cx := eng.ConstInt(mul.X)
+				_, cy := eng.ConstInt(mul.Y)
+				if cx || cy {
+					continue
+				}
+				n++
+				k++
+				okX := bounded(in.Parent(), mul.X, 1<<31, true, cmp.Block(), 0)
+				okY := bounded(in.Parent(), mul.Y, 1<<31, true, cmp.Block(), 0)
+				c.Check(okX && okY, R, fmt.Sprintf("%s#product%d", eng.FuncName(fn), k), cmp.Pos(), "both factors are bounded where the product is compared", "the product compared with the limit can overflow (a factor is not proven to be at most 2^31 here): a count of 2^62 written in the file wraps the product around to a small number, the check passes and the allocation panics with makeslice: len out of range")
+			}
+		})
+	}
+	c.Ok(R, "module#scanned", token.NoPos, fmt.Sprintf("%d products compared with a limit", n))
+}
